@@ -68,8 +68,9 @@ Record site := Site {
 
 (* known finding optional-union-nonetype-variant: with include_supertypes NoneType is a variant (the last one); a tagger
    makes the refill compile every variant, and compiling NoneType raises TypeError - after all real classes were registered *)
-Definition crash_on_refill (s: site) : bool := s_none s && s_sup s && negb (s_config s) && s_tagger s && negb (s_codec s).
-(* (a codec compiles NoneType onto its own AttrsHolder: no crash there) *)
+Definition crash_on_refill (s: site) : bool := false.
+(* until /repo 439013a this was  s_none s && s_sup s && negb (s_config s) && s_tagger s && negb (s_codec s)  (a holder's
+   refill crashed while compiling NoneType); now None is dropped from the base variants and answered by the field itself *)
 
 (* builder.py:396-401 rebuilds the Discriminator without include_supertypes *)
 Definition eff_sup (s: site) : bool := s_sup s && negb (s_config s).
